@@ -190,7 +190,7 @@ def flatCompositeBegin (c : Cfg) (s : St) (parentKey childKey : Nat) : CompBegin
 
 /-- Region after slicing: finalize the refresh if any, then register every slice relative to the
 parent's location. `slices` = (key, offset, size). Without a refresh the parent is looked up again
-under the lock (the repaired code; the pinned code reused a stale relative block index here). -/
+under the lock (the pinned tree reused a stale relative block index here; repaired in /repo b5781c3). -/
 def flatCompositeEnd (c : Cfg) (s : St) (parentKey : Nat) (src : Loc) (t : Option Ticket)
     (slices : List (Nat × Nat × Nat)) : String × St :=
   -- the slicer consumed the parent: its reader (and the refresh writer) are done
@@ -208,7 +208,7 @@ def flatCompositeEnd (c : Cfg) (s : St) (parentKey : Nat) (src : Loc) (t : Optio
       | some l => some (l, s)
       | none => none
   match parent? with
-  | none => (match t with | some _ => "err internal" | none => "not-found", s)
+  | none => (match t with | some _ => "err internal" | none => "ok", s)  -- parent gone: child returned, nothing registered
   | some (pl, s) =>
     ("ok", slices.foldl (fun s (k, off, size) => indexPut c s k (mkLoc (locBlk pl) (locOff pl + off) size)) s)
 
